@@ -8,7 +8,8 @@
    around commas; satisfiability; the selected bytes; "bytes first-last/size", "bytes */size").
    `range_strict h`: the header does not exercise the leniency of Python's int() ("+1", "1_0",
    " 1", non-ASCII digits; more than 4300 digits rejected) or str.strip() (other blanks, blanks
-   after "=" or at the end) - the recorded findings, refuted below without it. *)
+   after "=" or at the end) - the recorded findings, refuted below without it; it holds for
+   every canonically spelled request (canonical_requests_served). *)
 From Coq Require Import List NArith ZArith Bool String.
 From Verif Require Import Lib.Hex Lib.Decimal Gen.WebRange Model.Range Proofs.Range.
 Import ListNotations.
@@ -38,6 +39,18 @@ Theorem partial_content_exact_bytes :
     forall i, i <= l - f -> nth (N.to_nat i) (bytes_between data f l) 0 = nth (N.to_nat (f + i)) data 0.
 Proof. exact partial_is_exact_ok. Qed.
 Print Assumptions partial_content_exact_bytes.
+
+(* The precondition is met by every request in the RFC's canonical spelling, so for
+   "bytes=F-L", "bytes=F-" and "bytes=-K" (decimal numbers up to 2^4000) the response is the
+   RFC's for every file, with no side condition on the header. *)
+Theorem canonical_requests_served :
+  forall m data f l, N.size f <= 4000 -> N.size l <= 4000 ->
+    let n := N.of_nat (List.length data) in
+    (f <= l -> render m data (Some (bytes_of_string "bytes=" ++ dec f ++ [45] ++ dec l)) = respond m data (rfc_decide n (FromTo f l))) /\
+    render m data (Some (bytes_of_string "bytes=" ++ dec f ++ [45])) = respond m data (rfc_decide n (From f)) /\
+    render m data (Some (bytes_of_string "bytes=" ++ [45] ++ dec l)) = respond m data (rfc_decide n (Suffix l)).
+Proof. exact canonical_requests_ok. Qed.
+Print Assumptions canonical_requests_served.
 
 Theorem no_range_header_whole_file :
   forall m data, render m data None = respond m data Whole /\ render m data (Some []) = respond m data Whole.
